@@ -231,9 +231,10 @@ func seqs(alpha []string, n int) [][]string {
 //	k = 1..maxN; fitB^k for k = 1..2; the mixed sequences spsA,fitA / fitA,spsA / spsA,basm /
 //	basm,spsA;
 //	two callers (caller 1 makes k1 >= 1 calls, caller 2 makes k2 >= 0 calls): (spsA | spsA) on
-//	the SAME machine object with k1+k2 <= 3; (spsA | spsB) different machines and
-//	(fitA | spsA) with k2 <= 1 and k1+k2 <= 2 (quick) / 3 (thorough).  Histories with 4 calls are
-//	sequential only (two callers with 4 calls have > 10^6 schedules already at bound 1).
+//	the SAME machine object with k1+k2 <= 2 (quick) / 3 (thorough); (spsA | spsB) different machines and
+//	(fitA | spsA) with k1+k2 <= 2.  Histories with 4 calls are sequential only (two callers
+//	with 4 calls, or 3 calls involving the two-processor machine, have > 10^6 schedules already
+//	at bound 1).
 func Enumerate(maxN int) []History {
 	var hs []History
 	seen := map[string]bool{}
@@ -272,11 +273,11 @@ func Enumerate(maxN int) []History {
 	}
 	for pi, pair := range [][2]string{{SpsA, SpsA}, {SpsA, SpsB}, {FitA, SpsA}} {
 		lim, lim2 := 3, 3
+		if maxN <= 3 {
+			lim = 2 // quick: par[spsA,spsA | spsA] alone has 2*10^5 schedules at bound 1
+		}
 		if pi > 0 {
 			lim, lim2 = 2, 1
-			if maxN > 3 {
-				lim = 3
-			}
 		}
 		for k1 := 1; k1 <= lim; k1++ {
 			for k2 := 0; k1+k2 <= lim && k2 <= lim2; k2++ {
